@@ -6,6 +6,7 @@ import (
 	"fmt"
 	"go/token"
 	"go/types"
+	"regexp"
 	"strings"
 
 	"golang.org/x/tools/go/ssa"
@@ -893,4 +894,78 @@ func init() {
 		fr.i.stubsUsed["csrf.isFromCookie = function identity (reflect pointer comparison)"] = true
 		return false
 	}
+}
+
+// nativeObj wraps a host object (e.g. a compiled regexp) inside an interpreter value.
+type nativeObj struct{ v interface{} }
+
+func init() {
+	// regexp bridge: patterns and inputs must be concrete; the object lives natively
+	comp := func(fr *frame, a []value) value {
+		pat, ok := goString(a[0])
+		if !ok {
+			panic(abort(abUnsupported, "regexp with a symbolic pattern"))
+		}
+		re, err := regexp.Compile(pat)
+		cell := value(nativeObj{re})
+		if fr.fn.Name() == "MustCompile" {
+			if err != nil {
+				panic(targetPanic{fr.i.runtimeError("regexp: Compile: " + err.Error())})
+			}
+			return &cell
+		}
+		if err != nil {
+			return tuple{(*value)(nil), iface{fr.i.runtimeErrorString, err.Error()}}
+		}
+		return tuple{&cell, iface{}}
+	}
+	externals["regexp.MustCompile"] = comp
+	externals["regexp.Compile"] = comp
+	match := func(fr *frame, a []value) value {
+		p, _ := a[0].(*value)
+		if p == nil {
+			panic(abort(abUnsupported, "regexp method on an uninitialised *Regexp"))
+		}
+		no, ok := (*p).(nativeObj)
+		if !ok {
+			panic(abort(abUnsupported, "regexp method on a non-bridged *Regexp"))
+		}
+		var in string
+		switch x := a[1].(type) {
+		case []value:
+			s, ok := goString(symstr{x})
+			if !ok {
+				panic(abort(abUnsupported, "regexp match on a symbolic input"))
+			}
+			in = s
+		default:
+			s, ok := goString(x)
+			if !ok {
+				panic(abort(abUnsupported, "regexp match on a symbolic input"))
+			}
+			in = s
+		}
+		return no.v.(*regexp.Regexp).MatchString(in)
+	}
+	externals["(*regexp.Regexp).MatchString"] = match
+	externals["(*regexp.Regexp).Match"] = match
+}
+
+func init() {
+	// (*fasthttp.Client).Do / DoRedirects: the network is replaced by "the reply arrives at some
+	// later scheduling point and echoes the request path" (or fails, if the harness says so).
+	do := func(fr *frame, a []value) value {
+		i := fr.i
+		if i.ps == nil || !i.ps.stubs["fasthttp.Client.Do=echo"] {
+			panic(abort(abUnsupported, "fasthttp.Client.Do without a transport stub"))
+		}
+		i.stubsUsed["fasthttp.Client.Do = harness transport (reply arrives when a harness thread opens the gate)"] = true
+		f := i.findHarnessFunc("vTransport")
+		if f == nil {
+			panic(abort(abUnsupported, "transport stub needs vTransport in the harness"))
+		}
+		return i.call(fr, token.NoPos, f, []value{a[1], a[2]}, nil)
+	}
+	externals["(*github.com/valyala/fasthttp.Client).Do"] = do
+	externals["(*github.com/valyala/fasthttp.Client).DoRedirects"] = do
 }
